@@ -259,7 +259,8 @@ class Tracer(object):
         for o in session:
             cn = self.cname(o)
             if cn is None:
-                if type(o).__name__ == 'Activity':
+                # a PENDING activity makes the session modified (ActivityPlugin.is_session_modified)
+                if type(o).__name__ == 'Activity' and o in session.new:
                     plugin_mod = True
                 continue
             views.append('%d:%d:%d:%s:%s' % (self.info.cid[cn], o in session.new, o in session.deleted,
